@@ -23,18 +23,31 @@ from harness import nswire
 from harness.common import rat, wl, corpus_cases, lean_str, lean_list
 
 PID = 'C03'
-MODULES = ['NoteSeqVerif.Props.C03']
+PROPS = 'NoteSeqVerif.Props.C03'
+FLT = 'NoteSeqVerif.Props.C03_float'       # the floating-point side of the tick / tempo arithmetic (every `Rounding R`)
+MODULES = [FLT, PROPS]
 EXE = 'drv_c03'
-THEOREMS = [
-    'NSV.C03.source_shape', 'NSV.C03.midi_reader_accepts_long_files',
-    'NSV.C03.midi_groups_partition', 'NSV.C03.midi_groups_written', 'NSV.C03.midi_groups_roundtrip',
-    'NSV.C03.midi_tempo_map_order_independent', 'NSV.C03.midi_write_order_independent',
-    'NSV.C03.midi_tempo_map_sorted',
-    'NSV.C03.midi_key_roundtrip', 'NSV.C03.midi_key_other_modes_major',
-    'NSV.C03.midi_tick_roundtrip', 'NSV.C03.midi_time_to_tick_mono', 'NSV.C03.midi_tick_grid_fixed',
-    'NSV.C03.midi_note_keeps_length',
-    'NSV.C03.midi_tempo_quantisation', 'NSV.C03.midi_write_ok',
-]
+THEOREMS = [(PROPS, 'NSV.C03.' + n) for n in (
+    'source_shape', 'midi_reader_accepts_long_files',
+    'midi_groups_partition', 'midi_groups_written', 'midi_groups_roundtrip',
+    'midi_tempo_map_order_independent', 'midi_write_order_independent',
+    'midi_tempo_map_sorted',
+    'midi_key_roundtrip', 'midi_key_other_modes_major',
+    'midi_tick_roundtrip', 'midi_time_to_tick_mono', 'midi_tick_grid_fixed',
+    'midi_note_keeps_length',
+    'midi_tempo_quantisation', 'midi_write_ok',
+)] + [(FLT, 'NSV.C03.' + n) for n in (
+    # monotonicity in floats
+    'midi_tick_to_time_mono_float', 'midi_time_to_tick_mono_float', 'midi_note_order_kept_float',
+    # round trip under one tempo, grid times
+    'midi_tick_roundtrip_float', 'midi_tick_grid_fixed_float', 'midi_tick_roundtrip_idempotent_float',
+    # round trip / grid times on a general piecewise map (any number of tempo segments)
+    'midi_tick_roundtrip_float_general', 'midi_tick_grid_fixed_float_inside', 'midi_tick_grid_fixed_float_beyond',
+    # the microsecond tempo write stores: exact / exact-or-one-less / kernel-checked losses (mechanism of F-C03-3)
+    'midi_tempo_exact_float', 'midi_tempo_quantisation_float', 'midi_tempo_truncated_witness',
+    # what a truncated tempo does to later times (exact arithmetic)
+    'midi_drift_of_scaled_map', 'midi_drift_of_truncated_tempo',
+)]
 
 warnings.filterwarnings('ignore')
 
